@@ -11,13 +11,13 @@ FUNCTIONS = ["StockDrivenDSM._compute_inflow_manual", "StockDrivenDSM._compute_i
 ASSUMPTIONS = ["every cohort's first-interval survival share >= 1/20 (the property's precondition)", "time items strictly increasing",
                "scipy.linalg.solve_triangular satisfies its documented contract (fresh x with tri(a) x = b); LAPACK itself is trusted"]
 OUTSIDE = ["n beyond the bound", "IEEE rounding / conditioning of the triangular solve"]
-BOUNDS = {"quick": dict(n=[3, 4], extra=["-", "r2"], grids=dsm.GRIDS), "thorough": dict(n=[3, 4, 5], extra=["-", "r2", "r2xp2"], grids=dsm.GRIDS)}
+BOUNDS = {"quick": dict(n=[3, 4], extra=["-", "r2"], grids=dsm.GRIDS), "thorough": dict(n=[3, 4, 5, 6], extra=["-", "r2", "r2xp2"], grids=dsm.GRIDS)}
 OPTS = {"quick": dict(shadow_every=3, timeout_ms=20000), "thorough": dict(shadow_every=5, timeout_ms=120000)}
 
 
 def configs(tier, seed):
     out = []
-    ns = [3, 4] if tier == "quick" else [3, 4, 5]
+    ns = [3, 4] if tier == "quick" else [3, 4, 5, 6]
     extras = [{}, {"r": 2}] if tier == "quick" else [{}, {"r": 2}, {"r": 2, "p": 2}]
     for grid in dsm.GRIDS:
         for n in ns:
